@@ -68,6 +68,8 @@ class CallMixin:
             return self.getattr_value(self.concrete_member(base), name, node, default)
         if k == 'const' and isinstance(base.t, B.ModuleRef):
             return self.module_attr(base.t, name)
+        if k == 'const' and isinstance(base.t, tuple) and base.t and base.t[0] == 'iinfo' and name == 'max':
+            return VC({'np.uint32': 4294967295, 'np.int32': 2147483647, 'np.uint16': 65535, 'np.uint8': 255}[base.t[1]])
         if k in ('const', 'str', 'bytes', 'list', 'dict', 'tuple', 'int', 'bool', 'seq'):
             return SV('func', FuncVal(builtin='meth:' + name, bound=base, name=name))
         if k == 'opq':
@@ -144,6 +146,8 @@ class CallMixin:
 
     def opq_result(self, fname, args, spec):
         kind, _, rtag = spec.partition(':')
+        if kind == 'consttuple':
+            return VC(tuple(rtag.split(',')))
         sort = {'int': INT, 'bool': BOOL, 'opq': OPQ, 'str': SEQ, 'bytes': SEQ}[kind]
         f = self.ufunc(fname, *[a.sort() for a in args], sort)
         t = f(*args)
@@ -197,7 +201,9 @@ class CallMixin:
             ci = self.src.classes[owner]
             gk = ('clsconst', owner, name)
             if gk not in self.st.ghost:
-                self.st.frames.append(Frame({}, cls=owner, module=ci.module))
+                fr_ = Frame({}, cls=owner, module=ci.module)
+                fr_.class_body = True
+                self.st.frames.append(fr_)
                 try:
                     self.st.ghost[gk] = self.ev(ent)
                 finally:
@@ -574,6 +580,10 @@ class CallMixin:
         stubs = (self.cur_contract or {}).get('stubs', {})
         if f.name in stubs:
             st = stubs[f.name]
+            if st.get('capture'):
+                # record how the abstract callee was called (bound to its real signature): ghost  stub_call_<name>
+                env_ = self.bind(fn, ([f.bound] if f.bound is not None else []) + list(args), kw, f)
+                self.st.ghost['stub_call_' + f.name.strip('_')] = SV('dict', self.st.alloc(HDict({('c', k_): v_ for k_, v_ in env_.items()})))
             ck = ('stubcache', f.name, f.bound.t if (f.bound is not None and f.bound.k in ('obj', 'cls')) else None)
             if st.get('pure') and ck in self.st.ghost:
                 return self.st.ghost[ck]       # a pure abstract callee: same receiver state, same result
